@@ -30,6 +30,15 @@ def atom_key(e, truth):
     return canon(e), truth
 
 
+def split_key(k):
+    """(lhs, op, rhs) of a canonical comparison key produced by atom_key (op in ==, is, in, <, <=) or None"""
+    for op in (" == ", " is ", " in ", " <= ", " < "):
+        if op in k:
+            l, r = k.split(op, 1)
+            return l, op.strip(), r
+    return None
+
+
 class Row:
     __slots__ = ("nodes", "facts", "effects", "end", "value")
 
